@@ -198,10 +198,31 @@ def cell(draw, minor, cid):
     return c
 
 
+ID_STYLES = ["short", "short", "uuid", "max"]
+_style = {"cur": "short"}
+
+
+def _styled(cid):
+    """Same id in another realistic spelling: JupyterLab writes 36-char uuids; the schema allows up to 64 chars."""
+    if _style["cur"] == "uuid":
+        h = "%08x" % (abs(hash_str(cid)) % (16 ** 8))
+        return ("%s-%s-4%s-a%s-%s" % (h, h[:4], h[1:4], h[2:5], (h + h)[:12]))[:36 - len(cid) - 1] + "-" + cid
+    if _style["cur"] == "max":
+        return (cid + "_" + "x" * 64)[:64]
+    return cid
+
+
+def hash_str(s):
+    v = 0
+    for ch in s:
+        v = (v * 131 + ord(ch)) % (2 ** 61 - 1)
+    return v
+
+
 def _fresh_id(used, stem):
     i = 0
     while True:
-        cid = "%s%d" % (stem, i)
+        cid = _styled("%s%d" % (stem, i))
         if cid not in used:
             used.add(cid)
             return cid
@@ -215,6 +236,7 @@ def notebook(draw, minor=None, max_cells=5, min_cells=0):
     n = draw(st.integers(min_cells, max_cells))
     used = set()
     cells = []
+    _style["cur"] = draw(st.sampled_from(ID_STYLES)) if minor >= 5 else "short"
     for i in range(n):
         if cells and draw(st.integers(0, 9)) == 0:
             c = copy.deepcopy(cells[draw(st.integers(0, len(cells) - 1))])   # repeated cell (alignment ambiguity)
@@ -352,9 +374,9 @@ CELL_EDITS = ["source", "source", "source", "outputs", "outputs", "metadata", "e
 
 
 @st.composite
-def edit_cell(draw, c, minor, kinds=None):
+def edit_cell(draw, c, minor, kinds=None, n_edits=None):
     c = copy.deepcopy(c)
-    what = draw(st.lists(st.sampled_from(kinds or CELL_EDITS), min_size=1, max_size=2))
+    what = draw(st.lists(st.sampled_from(kinds or CELL_EDITS), min_size=n_edits or 1, max_size=n_edits or 2))
     pool = CODE_LINES if c["cell_type"] == "code" else MD_LINES
     for w in what:
         if w == "source":
@@ -416,7 +438,7 @@ def edit_cell(draw, c, minor, kinds=None):
                     mk = sorted(a[k])[0] if k in a and a[k] else "image/png"
                     a[k] = {mk: draw(st.sampled_from(B64S[:3]))}
         elif w == "type":
-            newt = draw(st.sampled_from(["code", "markdown", "raw"]))
+            newt = draw(st.sampled_from([t for t in ("code", "markdown", "markdown", "raw") if t != c["cell_type"]]))
             if newt != c["cell_type"]:
                 keep = {k: c[k] for k in ("id", "source") if k in c}
                 c = {"cell_type": newt, "metadata": {k: v for k, v in c["metadata"].items() if k in FREE_KEYS}, **keep}
@@ -515,7 +537,7 @@ def _forced_conflict(draw, base):
     shape = draw(st.sampled_from(["del_vs_edit", "edit_vs_del", "both_edit_source", "both_edit_outputs", "both_edit_meta",
                                   "both_insert_same_pos", "both_insert_similar", "insert_next_to_edit", "insert_next_to_del",
                                   "both_append_nonl", "both_attach", "both_nbmeta", "both_minor", "both_del", "both_ec",
-                                  "both_same_edit", "both_edit_same_output", "both_edit_same_output", "transient_meta"]))
+                                  "both_same_edit", "both_edit_same_output", "both_edit_same_output", "transient_meta", "type_vs_edit", "type_vs_edit"]))
     usedl, usedr = _ids(l), _ids(r)
     if n == 0 or shape in ("both_insert_same_pos", "both_insert_similar"):
         i = draw(st.integers(0, n))
@@ -530,6 +552,9 @@ def _forced_conflict(draw, base):
         r["cells"].insert(i, cr)
         return l, r, shape
     i = draw(st.integers(0, n - 1))
+    code_idx = [k for k, x in enumerate(base["cells"]) if x["cell_type"] == "code"]
+    if code_idx and shape in ("both_edit_outputs", "both_ec", "both_edit_same_output", "transient_meta", "type_vs_edit"):
+        i = draw(st.sampled_from(code_idx))      # shapes about outputs / execution counts need a code cell
     c = base["cells"][i]
     dve = draw(st.sampled_from([None, None, ["source", "rerun"], ["source", "toggle"], ["rerun"], ["rerun", "toggle"], ["source", "outputs"]]))
     if shape == "del_vs_edit":
@@ -578,6 +603,10 @@ def _forced_conflict(draw, base):
                     so.insert(j, draw(output()))
                 elif extra == "del_other" and len(so) > 1:
                     del so[(j + 1) % len(so)]
+    elif shape == "type_vs_edit":
+        a_, b_ = (l, r) if draw(st.booleans()) else (r, l)
+        a_["cells"][i] = draw(edit_cell(c, minor, ["type"], n_edits=1))
+        b_["cells"][i] = draw(edit_cell(c, minor, draw(st.sampled_from([["rerun"], ["rerun"], ["outputs"], ["source"], ["rerun", "toggle"], ["ec"]]))))
     elif shape == "transient_meta":
         # keys the merger treats as transient: collapsed / scrolled (/ autoscroll): remove on one side, change on the other ...
         key = draw(st.sampled_from(["collapsed", "scrolled"])) if c["cell_type"] == "code" else "collapsed"
@@ -621,8 +650,9 @@ def _forced_conflict(draw, base):
         l = draw(edit_notebook(l, "L", ops=["meta"], min_steps=1, max_steps=1))
         r = draw(edit_notebook(r, "R", ops=["meta"], min_steps=1, max_steps=1))
     elif shape == "both_minor":
-        set_minor(l, draw(st.sampled_from(MINORS)), "Lm")
-        set_minor(r, draw(st.sampled_from(MINORS)), "Rm")
+        near = [0, 2, 3, 4, 4, 5, 5]       # ids are required from 4.5 and forbidden before: stay near that boundary
+        set_minor(l, draw(st.sampled_from(near)), "Lm")
+        set_minor(r, draw(st.sampled_from(near)), "Rm")
     return l, r, shape
 
 
